@@ -210,7 +210,7 @@ pub open spec fn contains_all(v: Seq<u64>, w: Seq<u64>) -> bool { forall|x: u64|
 // ---- L1 -----------------------------------------------------------------------------------
 // L1 (history vs history): any accepted history for latest n shows absent a version that any accepted
 // history for latest m > n (range [sp, m]) must show present.
-// alarm: C08
+// alarm: C08, C07
 pub proof fn lemma_l1(n: u64, m: u64, sp: u64, e: u64)
     requires 1 <= n, n < m, m <= e, 1 <= sp, sp <= m
     ensures exists|x: u64| #[trigger] in_fut(x, n, e) && ((sp <= x && x <= m) || in_past(x, sp))
